@@ -1,4 +1,5 @@
 import BsVerif.Lemmas.Dap
+import BsVerif.Lemmas.DapThreads
 import BsVerif.Gen.DapDispatch
 /-!
 # C12 — the DAP adapter speaks the protocol for any request history
@@ -6,7 +7,11 @@ import BsVerif.Gen.DapDispatch
 Property theorems only.  Models: `BsVerif/Model/Dap.lean` (writer model `Dap.Writer`, session model
 `Dap`), helper lemmas: `BsVerif/Lemmas/Dap.lean`.
 
-Three of the five clauses are FALSE of the unchanged code.  For each of them the full statement is a
+Models: every arm of `dispatch` (43 commands) with the cancellation bookkeeping (`canceled_request_ids`,
+`canceled_progress_ids`, `consume_cancellation`), the thread-cache diff (`refresh_threads_with_events`) and
+the progress ids.
+
+Four of the clauses are FALSE of the unchanged code.  For each of them the full statement is a
 `def …_full : Prop`, its negation is proved on a concrete witness (`…_counterexample`, replayed on the
 real adapter by the harness: `corpus/C12/*.req`, `known_findings.txt`), and the part that does hold is
 proved for ALL histories / ALL schedules under a named hypothesis (`…_partial`).
@@ -85,6 +90,52 @@ theorem C12_one_response_continue_live (s s' : Sess) (r : Req) (h : Hint) (out :
     | none => exact absurd hout ho
     | stop x => simp [respondActs, runRule]
     | exit => simp [respondActs, runRule]
+  · cases hs
+
+/-! ### cancelled requests (`cancel {requestId}` ahead of the request, `consume_cancellation`) -/
+
+/-- the commands whose handlers call `consume_cancellation` -/
+def cancellable : Cmd → Bool
+  | .stackTrace | .evaluate | .readMemory | .disassemble => true
+  | _ => false
+
+/-- an accepted `cancel {requestId: n}` (alone or together with a progress id) records `n` and is answered -/
+theorem C12_cancel_records (s s' : Sess) (r : Req) (h : Hint) (out : List Msg) (hc : r.cmd = .cancel)
+    (hm : r.mutn = .valid) (hp : r.param % 4 = 0 ∨ r.param % 4 = 3) (hs : runStep s r h = some (s', out)) :
+    s'.cancelledReqs.contains (r.param / 4) = true ∧ resps out = [Msg.resp .cancel true r.seq] := by
+  unfold runStep at hs
+  split at hs
+  · injection hs with hs
+    have h1 : (exec r s (fullPlan s r h)).1 = s' := congrArg Prod.fst hs
+    have h2 : (exec r s (fullPlan s r h)).2 = out := congrArg Prod.snd hs
+    have hplan : fullPlan s r h = [.cancelReq (r.param / 4), .respond true, .drain] ∨
+        fullPlan s r h = [.cancelReq (r.param / 4), .cancelProg (r.param / 4), .respond true, .drain] := by
+      unfold fullPlan plan
+      rcases hp with hp | hp <;> simp [hc, hm, hp, runRule]
+    rcases hplan with hplan | hplan <;> rw [← h1, ← h2, hplan] <;>
+      simp only [exec, execAct, resps_append, resps_drain, resps, List.append_nil, List.nil_append, drain_cancelledReqs,
+        insertSet_contains, hc, and_self]
+  · cases hs
+
+/-- a cancellable request whose sequence number was cancelled ahead of time is ANSWERED — exactly one response,
+an error response carrying its `request_seq` and `command` — whatever its arguments, whatever the debuggee does,
+in every session state; and the cancellation is consumed -/
+theorem C12_cancelled_request_answered (s s' : Sess) (r : Req) (h : Hint) (out : List Msg)
+    (hc : cancellable r.cmd = true) (hin : s.cancelledReqs.contains r.seq = true)
+    (hs : runStep s r h = some (s', out)) :
+    resps out = [Msg.resp r.cmd false r.seq] ∧ s'.cancelledReqs.contains r.seq = false := by
+  unfold runStep at hs
+  split at hs
+  · injection hs with hs
+    have h1 : (exec r s (fullPlan s r h)).1 = s' := congrArg Prod.fst hs
+    have h2 : (exec r s (fullPlan s r h)).2 = out := congrArg Prod.snd hs
+    have hin' : r.seq ∈ s.cancelledReqs := by simpa using hin
+    have hplan : fullPlan s r h = [.consumeReq, .respond false, .drain] := by
+      unfold fullPlan plan
+      cases hcmd : r.cmd <;> simp [cancellable, hcmd] at hc <;> simp [hin', runRule]
+    rw [← h1, ← h2, hplan]
+    simp only [exec, execAct, resps_append, resps_drain, resps, List.append_nil, List.nil_append, drain_cancelledReqs]
+    exact ⟨trivial, by simp [removeSet]⟩
   · cases hs
 
 /-! ## 2. sequence numbers are 1,2,3,… in wire order -/
@@ -172,6 +223,67 @@ theorem C12_silent_after_terminated_counterexample : ¬ C12_silent_after_termina
   rw [hn] at hst
   cases hst
 
+/-! ## 3b. each thread start / exit is announced by its event exactly once and in causal order -/
+
+/-- the diff of `refresh_threads_with_events` is exact: from a duplicate-free cache, `started` is queued for
+precisely the reported threads that are not cached, `exited` for precisely the cached ones that are no longer
+reported, each once; and the new cache is the reported set -/
+theorem C12_thread_refresh_exact (cache tl : List Nat) (t : Nat) :
+    (IEv.ev (.threadStarted t) ∈ refreshEvents cache tl ↔ (t ∈ tl ∧ t ∉ cache)) ∧
+    (IEv.ev (.threadExited t) ∈ refreshEvents cache tl ↔ (t ∈ cache ∧ t ∉ tl)) ∧
+    (cache.Nodup → (refreshEvents cache tl).Nodup) ∧ (∀ u, u ∈ dedup tl ↔ u ∈ tl) := by
+  refine ⟨?_, ?_, ?_, mem_dedup tl⟩
+  · simp [refreshEvents, mem_dedup]
+  · simp [refreshEvents, mem_dedup]
+  · intro hc
+    unfold refreshEvents
+    refine List.nodup_append.mpr ⟨?_, ?_, ?_⟩
+    · exact ((dedup_nodup tl).filter _).map (f := fun t => IEv.ev (.threadStarted t)) (by intro a b hab e; injection e with e; injection e with e; exact hab e)
+    · exact (hc.filter _).map (f := fun t => IEv.ev (.threadExited t)) (by intro a b hab e; injection e with e; injection e with e; exact hab e)
+    · intro a ha b hb
+      obtain ⟨x, _, rfl⟩ := List.mem_map.mp ha
+      obtain ⟨y, _, rfl⟩ := List.mem_map.mp hb
+      intro hab; injection hab with hab; cases hab
+
+/-- FULL statement: for every history the wire is accepted by the thread monitor — `thread started t` only for
+a thread that is not announced, `thread exited t` only for an announced one (no exit without a start, no second
+exit, no second start). -/
+def C12_thread_events_full : Prop :=
+  ∀ hist : List (Req × Hint), ∃ live, threadRun [] (trace {} hist) = some live
+
+/-- PARTIAL (all histories, all debuggee behaviours, under `cleanRelaunch`: the latch is never reset over a
+non-empty thread cache): the wire is accepted by the thread monitor, AND whenever the session goes on and its
+lifecycle is open, the threads announced and not yet exited are exactly the threads the debugger reported to
+the last refresh — the events announced equal the changes of the reported thread list. -/
+theorem C12_thread_events_partial (hist : List (Req × Hint)) (hclean : cleanRelaunch {} hist = true) :
+    ∃ live, threadRun [] (trace {} hist) = some live ∧
+      ((finalSess {} hist).alive = true → (finalSess {} hist).terminated = false →
+        ∀ t, t ∈ live ↔ t ∈ (finalSess {} hist).threadCache) := by
+  obtain ⟨live, e, tb⟩ := trace_thread hist {} [] tb_init hclean
+  refine ⟨live, e, ?_⟩
+  intro ha ht
+  obtain ⟨l, hl, hm⟩ := tb.1.sync ht
+  rw [tb.2 ha] at hl
+  cases hl
+  exact hm
+
+/-- witness: the debuggee exits (`emit_process_end` announces the exit of its thread but keeps it in the cache),
+the client launches again: the first refresh of the new lifecycle announces the exit of the old thread AGAIN -/
+def witnessRelaunchAfterExit : List (Req × Hint) :=
+  [({ seq := 1, cmd := .initialize, mutn := .valid }, {}),
+   ({ seq := 2, cmd := .launch, mutn := .valid }, {}),
+   ({ seq := 3, cmd := .configurationDone, mutn := .valid }, { outcome := .stop "entry", tl := [1] }),
+   ({ seq := 4, cmd := .continue_, mutn := .valid }, { outcome := .exit }),
+   ({ seq := 5, cmd := .launch, mutn := .valid }, {}),
+   ({ seq := 6, cmd := .configurationDone, mutn := .valid }, { outcome := .stop "entry", tl := [2] })]
+
+theorem C12_thread_events_counterexample : ¬ C12_thread_events_full := by
+  intro h
+  obtain ⟨live, hl⟩ := h witnessRelaunchAfterExit
+  have hn : threadRun [] (trace {} witnessRelaunchAfterExit) = none := by decide
+  rw [hn] at hl
+  cases hl
+
 /-! ## 5. a failing request yields an error response, not silence or a dropped connection -/
 
 theorem C12_error_not_silence (s : Sess) (r : Req) (h : Hint) (ha : s.alive = true)
@@ -197,10 +309,10 @@ theorem C12_never_silent (s : Sess) (r : Req) (h : Hint) (ha : s.alive = true) :
 /-- the rule of `run`: when the handler returns `Err`, the last response of the answer is an error
 response for this request, and the session goes on -/
 theorem C12_error_not_silence_run_rule (s : Sess) (r : Req) (h : Hint) (ha : s.alive = true)
-    (he : (plan s.dbg s.bpRecords r h).2 = .err) :
+    (he : (plan s r h).2 = .err) :
     ∃ s' out pre, runStep s r h = some (s', out) ∧ resps out = pre ++ [Msg.resp r.cmd false r.seq] := by
   refine ⟨(exec r s (fullPlan s r h)).1, (exec r s (fullPlan s r h)).2,
-    (respondActs (plan s.dbg s.bpRecords r h).1).map (fun ok => Msg.resp r.cmd ok r.seq), by simp [runStep, ha], ?_⟩
+    (respondActs (plan s r h).1).map (fun ok => Msg.resp r.cmd ok r.seq), by simp [runStep, ha], ?_⟩
   rw [resps_exec]
   simp [fullPlan, he, runRule, respondActs]
 
@@ -220,9 +332,29 @@ theorem C12_error_not_silence_run_rule (s : Sess) (r : Req) (h : Hint) (ha : s.a
 -- every modelled command is an arm of `dispatch`, `frobnicate` is not, exactly `terminate` and
 -- `disconnect` leave the `run` loop, and the number is (still) taken before the transport lock
 #guard (allCmds.filter (· != .frobnicate)).all (fun c => Gen.DapDispatch.commands.contains (cmdName c))
+#guard Gen.DapDispatch.commands.all (fun n => allCmds.any (fun c => cmdName c == n))   -- every arm of `dispatch` is modelled
 #guard !Gen.DapDispatch.commands.contains (cmdName .frobnicate)
 #guard Gen.DapDispatch.endsSession == [cmdName .terminate, cmdName .disconnect]
 #guard Gen.DapDispatch.seqBeforeLock
+
+-- cancel ahead: `cancel {requestId: 7}` (param 28), then request 7 = stackTrace: one error response; cancelled by progress id
+-- (param 4*2+1): the `disassemble` that takes progress id 2 closes its progress and answers with an error
+#guard (runHistory {} [({ seq := 5, cmd := .cancel, mutn := .valid, param := 28 }, {}), ({ seq := 7, cmd := .stackTrace, mutn := .valid }, {})]).map (·.map resps)
+  == [some [.resp .cancel true 5], some [.resp .stackTrace false 7]]
+#guard (runHistory { nextProgress := 2 } [({ seq := 5, cmd := .cancel, mutn := .valid, param := 9 }, {}), ({ seq := 6, cmd := .disassemble, mutn := .valid }, {})]).map (·.map resps)
+  == [some [.resp .cancel true 5], some [.resp .disassemble false 6]]
+#guard cleanRelaunch {} witnessRelaunchAfterExit == false
+#guard cleanRelaunch {} witnessContinueBeforeLaunch
+
+/-- non-vacuity of `C12_thread_events_partial`: a history with a thread started during a step (reported by a later
+`threads`), satisfying `cleanRelaunch`, whose announced set is the reported list -/
+example : cleanRelaunch {} [({ seq := 1, cmd := .launch, mutn := .valid }, {}),
+    ({ seq := 2, cmd := .configurationDone, mutn := .valid }, { outcome := .stop "breakpoint", tl := [1] }),
+    ({ seq := 3, cmd := .next, mutn := .valid }, { outcome := .stop "step" }),
+    ({ seq := 4, cmd := .threads, mutn := .valid }, { tl := [1, 2] })] = true := by decide
+
+/-- non-vacuity of `C12_cancelled_request_answered` -/
+example : cancellable .readMemory = true ∧ ({ cancelledReqs := [4] } : Sess).cancelledReqs.contains 4 = true := by decide
 
 /-- non-vacuity of `C12_error_not_silence`: a live session and a request that must fail -/
 example : ({} : Sess).alive = true ∧ mustFail {} { seq := 7, cmd := .stackTrace, mutn := .valid } = true := by decide
